@@ -80,4 +80,16 @@ def dynScatter (C : Array (Array CF)) (v M : Array Float) (wavelength : Float) (
     let w := (List.range n).map fun k => CF.mul (CF.cis (2.0 * 3.141592653589793 * t * gamma.getD k 0)) (alpha.getD k CF.zero)
     (List.range n).map fun g => (List.range n).foldl (fun acc k => CF.add acc (CF.mul (cm g k) (w.getD k CF.zero))) CF.zero
 
+/-! ### orientation ensembles -/
+
+/-- one row of the eager ensemble result: the member's values written at the member's positions within the ensemble's
+reflection list (`array[i][..., bw.hkl_mask[hkl_mask]] = pattern`), zero elsewhere -/
+def scatterRow {α} (zero : α) (width : Nat) (pos : List Nat) (vals : List α) : List α :=
+  (List.range width).map fun k => ((pos.zip vals).lookup k).getD zero
+
+/-- `BlochwaveEnsemble._calculate_diffraction_intensities` (eager): one row per orientation (and thickness), each written
+from that member's own run only -/
+def assembleEnsemble {α} (zero : α) (width : Nat) (members : List (List Nat × List α)) : List (List α) :=
+  members.map fun m => scatterRow zero width m.1 m.2
+
 end AbtemVerif.Bloch
